@@ -803,7 +803,7 @@ package s3db
 //@   requires ctx != nil
 //@   requires imp(has(tables, tableName) && tables[tableName] != nil, vtOK(tables[tableName]))
 //@   requires forall i int :: imp(has(tables, tableName) && tables[tableName] != nil, vacShape(vacRoot(tableName), i))
-//@   modifies puts, deletes, lastPutPrefix, lastPutName, lastPutOK, tables[tableName].Tree.Root, historyDeletions, historyHandle, historySnapshot
+//@   modifies puts, deletes, lastPutPrefix, lastPutName, lastPutOK, tables[tableName].Tree.Root, historyDeletions, historyHandle, historySnapshot, vacLastChildOld
 //@   ensures readonly: imp(has(tables, tableName) && tables[tableName] != nil && old(tables[tableName].Tree.Root.readonly), puts == old(puts) && deletes == old(deletes))
 // C09: if history was deleted, it was deleted for the version the table shows from now on (the nodes of THAT version were protected)
 // C04: a vacuum that fails before its purged tree was committed leaves the table's handle alone (the handle of a
